@@ -121,7 +121,7 @@ def one_history(ctx, index, rng: random.Random):
     steps = rng.randint(3, 10 if ctx.quick else 20)
     for _ in range(steps):
         op = rng.choice(["fill_int", "fill_float", "fill_n_int", "fill_n_float", "fill_n_none", "add", "sub", "iadd", "isub", "mul", "div",
-                         "normalize", "merge", "set_dtype", "set_dtype", "copy"])
+                         "normalize", "merge", "set_dtype", "set_dtype", "copy", "assign", "derive"])
         before_dtype = np.dtype(h.dtype)
         f0, e0 = shadow_of(h)
         rec.mon("C13.rules")
@@ -226,6 +226,60 @@ def one_history(ctx, index, rng: random.Random):
                         rec.fail(monitor="C13.rules", op=op, symptom="copy changed the dtype", diff=["dtype"], detail={"before": str(before_dtype), "after": str(c.dtype)})
                     h = c
                     world.register(h)
+                elif op == "assign":
+                    # contents / squared errors assigned through the public setters, in an element type of the caller's choosing
+                    which = rng.choice(["frequencies", "errors2"])
+                    adt = rng.choice(DTYPES_ALL)
+                    cur = np.asarray(getattr(h, which), dtype=np.float64)
+                    vals = np.floor(np.clip(np.nan_to_num(cur, nan=0.0, posinf=100.0), 0, 100)) + (rng.choice([0.0, 0.5]) if np.dtype(adt).kind == "f" else 0)
+                    new = vals.astype(adt) if rng.random() < 0.8 else (vals.astype(adt).tolist())
+                    setattr(h, which, new)
+                    adt_eff = np.asarray(new).dtype
+                    after = np.dtype(h.dtype)
+                    with attach.quiet():
+                        probs = snap.dtype_problems(h)
+                        got = np.asarray(getattr(h, which), dtype=np.float64)
+                    if probs:
+                        rec.fail(monitor="C13.rules", op=f"{which} = <{adt_eff}>", symptom="reported dtype is not the element type of frequencies / errors2 after an assignment",
+                                 diff=["dtype"], detail={"problems": probs, "before": str(before_dtype), "assigned": str(adt_eff), "log": log[-6:]})
+                    elif not np.array_equal(got, np.asarray(new, dtype=np.float64)):
+                        rec.fail(monitor="C13.rules", op=f"{which} = <{adt_eff}>", symptom="assigned values were truncated / changed", diff=[which],
+                                 detail={"assigned": np.asarray(new, dtype=float).ravel()[:8], "got": got.ravel()[:8], "before": str(before_dtype)})
+                    elif after != np.promote_types(before_dtype, adt_eff) and after != adt_eff and after != before_dtype:
+                        rec.fail(monitor="C13.rules", op=f"{which} = <{adt_eff}>", symptom="dtype after an assignment is neither operand type nor their numpy promotion", diff=["dtype"],
+                                 detail={"before": str(before_dtype), "assigned": str(adt_eff), "after": str(after)})
+                elif op == "derive":
+                    # objects derived from the histogram report their own element type as well
+                    how = rng.choice(["accumulate", "projection", "T", "index", "cumulative"] if d > 1 else ["index", "slice", "cumulative"])
+                    if how == "accumulate":
+                        g = h.accumulate(rng.randrange(d))
+                    elif how == "projection":
+                        g = h.projection(rng.randrange(d))
+                    elif how == "T":
+                        g = h.T
+                    elif how == "index":
+                        g = h[rng.randrange(h.shape[0])] if d > 1 else h[: max(1, h.shape[0] - 1)]
+                    elif how == "slice":
+                        g = h[1:] if h.shape[0] > 1 else h[:]
+                    else:
+                        g = None
+                        if d == 1:
+                            c = np.asarray(h.cumulative_frequencies, dtype=np.float64)
+                            if before_dtype.kind in "iu" and not np.array_equal(c, np.cumsum(f0)):
+                                rec.fail(monitor="C13.rules", op="cumulative_frequencies", symptom="running sums wrapped around / differ from the exact sums", diff=["cumulative_frequencies"],
+                                         detail={"dtype": str(before_dtype), "got": c[:8], "expected": np.cumsum(f0)[:8]})
+                    if g is not None and hasattr(g, "frequencies"):
+                        with attach.quiet():
+                            probs = snap.dtype_problems(g)
+                            gf = np.asarray(g.frequencies, dtype=np.float64)
+                        if probs:
+                            rec.fail(monitor="C13.rules", op=how, symptom="reported dtype of a derived histogram is not the element type of its frequencies / errors2",
+                                     diff=["dtype"], detail={"problems": probs, "parent": str(before_dtype), "log": log[-6:]})
+                        if how == "accumulate" and before_dtype.kind in "iu" and not np.array_equal(gf, np.cumsum(f0, axis=0)) and not np.array_equal(gf, np.cumsum(f0, axis=1)):
+                            rec.fail(monitor="C13.rules", op=how, symptom="running sums wrapped around / differ from the exact sums", diff=["frequencies"], detail={"parent": str(before_dtype)})
+                        if how == "projection" and before_dtype.kind in "iu" and float(gf.sum()) != float(f0.sum()):
+                            rec.fail(monitor="C13.rules", op=how, symptom="marginal sums wrapped around / differ from the exact sums", diff=["frequencies"], detail={"parent": str(before_dtype)})
+                    continue
                 elif op == "set_dtype":
                     rec.mon("C13.set_dtype")
                     target = rng.choice(DTYPES_ALL)
